@@ -41,7 +41,9 @@ def main():
         if n < 1:
             print(m["id"], "SKIP: pattern not found"); continue
         new = src.replace(m["old"], m["new"], m.get("count", 1))
-        rec = {"id": m["id"], "property": m["property"], "file": m["file"], "what": m.get("what", ""), "checks": {}}
+        for a, b in m.get("extra", []):
+            new = new.replace(a, b)
+        rec = {"id": m["id"], "property": m["property"], "file": m["file"], "what": m.get("what", ""), "expect": m.get("expect", "caught"), "checks": {}}
         try:
             open(f, "w").write(new)
             if with_tests:
